@@ -227,21 +227,38 @@ def make_launcher(wd):
 
 
 # ---------------------------------------------------------------------------------------------- seams
-class VCentral:
-    def __init__(self, name):
-        self.loop = V.VLoop()
-        old = events._get_running_loop()
-        events._set_running_loop(self.loop)
-        try:
-            self.exitCondition = asyncio.Condition()
-            self.dependencyLock = asyncio.Lock()
-        finally:
-            events._set_running_loop(old)
-        V.HUB.spawn(f"loop:{name}:{V.current_proc().pid}", self.loop.actor_body, kind="loop")
+class AsyncioProxy:
+    """Stands for the `asyncio` module inside experimaestro.scheduler.base: the scheduler thread (the real SchedulerCentral.run)
+    gets a virtual loop; everything else is asyncio's."""
+
+    def __getattr__(self, k):
+        return getattr(asyncio, k)
 
     @staticmethod
-    def create(name):
-        return VCentral(name)
+    def new_event_loop():
+        return V.VLoop()
+
+    @staticmethod
+    def set_event_loop(loop):
+        pass
+
+
+def make_vcentral(real):
+    """A subclass of the tree's SchedulerCentral whose thread is an actor: __init__, run(), create() and whatever else the class
+    defines (e.g. a stop method) are the tree's own code."""
+
+    class VCentral(real):
+        def __init__(self, name):
+            self._vname = name
+            super().__init__(name)
+
+        def start(self):
+            V.HUB.spawn(f"loop:{self._vname}:{V.current_proc().pid}", self.run, kind="loop")
+
+        def join(self, timeout=None):
+            pass
+
+    return VCentral
 
 
 class VOutputsWorker:
@@ -350,7 +367,9 @@ def install():
     sdeps.Dependency.__hash__ = lambda self: self._vseq
     sdeps.Dependency.__eq__ = lambda self, other: self is other
 
-    sbase.SchedulerCentral.create = staticmethod(VCentral.create)
+    sbase.threading = V.ThreadingShim()
+    sbase.asyncio = AsyncioProxy()
+    sbase.SchedulerCentral = make_vcentral(sbase.SchedulerCentral)
     dyn.TaskOutputsWorker = VOutputsWorker
     asyncio.run_coroutine_threadsafe = V.v_run_coroutine_threadsafe
     uasync.Thread = V.VThread
